@@ -316,9 +316,16 @@ func run(h *common.History, kind, nops int, schedule []int, direct bool) {
 
 	start := func(i int, timeout bool) {
 		o := &opState{timeout: timeout, started: true}
-		if timeout {
+		switch {
+		case timeout && (i+kind)%3 == 1:
+			o.ctx, o.cancel = context.WithTimeoutCause(context.Background(), time.Duration(1000+i)*time.Hour, errors.New("cause of the timeout"))
+		case timeout:
 			o.ctx, o.cancel = context.WithTimeout(context.Background(), time.Duration(1000+i)*time.Hour)
-		} else {
+		case (i+kind)%3 == 1:
+			// a context cancelled with a cause: the operation still reports the context's error (ctx.Err()), not the cause
+			c, cancel := context.WithCancelCause(context.Background())
+			o.ctx, o.cancel = c, func() { cancel(errors.New("cause of the cancellation")) }
+		default:
 			o.ctx, o.cancel = context.WithCancel(context.Background())
 		}
 		if isWrite(kind) {
